@@ -1,5 +1,6 @@
 import Exetera.Props.C14
 import Exetera.Lemmas.GenKernelsCompareArrays
+import Exetera.Lemmas.GenKernelsUnique
 /-!
   C14 over the TRANSLATED `compare_arrays` (`Gen/Kernels.lean`, regenerated from operations.py by tools/translate_njit.py on every
   run) — the first translated kernel with a `return` inside a loop (early-exit flag and result slot).
@@ -21,5 +22,34 @@ theorem gen_compare_arrays_is_lex (a b : Bytes) : compare_arrays.run (ints8 a) (
 
 example : compare_arrays.run [97, 98] [97, 98, 99] = .ok (-1) ∧ compare_arrays.run [97, 99] [97, 98, 99] = .ok 1 ∧
     compare_arrays.run [] [] = .ok 0 := ⟨rfl, rfl, rfl⟩
+
+/-! ### `get_indexed_string_unique` (KT4B) -/
+
+open Exetera.GenK.GU in
+/-- transfer: every `.ok` run of the model `getIndexedStringUnique` is a run of the TRANSLATED `get_indexed_string_unique` — called
+    as `unique_for_indexed_string` calls it, with an empty `unique_result` and empty / absent (`None`) companion lists — that
+    leaves the same four lists (bytes as ints, positions as ints) -/
+theorem gen_unique_ok (indices : List Nat) (values : Bytes) (ri rv rc : Bool) (o : UOut)
+    (h : getIndexedStringUnique indices values ri rv rc = .ok o) :
+    get_indexed_string_unique.run (natsI indices) (ints8 values) [] (optNil ri) (optNil rv) (optNil rc)
+      = .ok (o.result.map ints8, o.index.map natsI, o.inverse.map natsI, o.counts.map natsI) :=
+  get_indexed_string_unique_ok indices values ri rv rc o h
+
+open Exetera.GenK.GU in
+/-- the property-level statement (`C14.unique_kernel_discovery_order`) for the translated kernel itself: on the stored form of ANY
+    column and every combination of the three flags it returns normally (no subscript out of range or negative) the distinct
+    values in discovery order, their first rows, the row → discovery position map and the counts -/
+theorem gen_unique_discovery_order (col : List Bytes) (ri rv rc : Bool) :
+    get_indexed_string_unique.run (natsI (encode col).1) (ints8 (encode col).2) [] (optNil ri) (optNil rv) (optNil rc)
+      = .ok ((discOut ri rv rc col).result.map ints8, (discOut ri rv rc col).index.map natsI,
+          (discOut ri rv rc col).inverse.map natsI, (discOut ri rv rc col).counts.map natsI) :=
+  get_indexed_string_unique_ok _ _ ri rv rc _ (C14.unique_kernel_discovery_order col ri rv rc)
+
+example : get_indexed_string_unique.run [0, 1, 2, 3, 4] [98, 99, 97, 98] [] (some []) (some []) (some [])
+    = .ok ([[98], [99], [97]], some [0, 1, 2], some [0, 1, 2, 0], some [2, 1, 1]) := by rfl
+example : get_indexed_string_unique.run [0, 1, 2, 3, 4] [98, 99, 97, 98] [] none (some []) none
+    = .ok ([[98], [99], [97]], none, some [0, 1, 2, 0], none) := by rfl
+example : GU.natsI (encode [[98], [99], [97], [98]]).1 = [0, 1, 2, 3, 4] ∧ ints8 (encode [[98], [99], [97], [98]]).2 = [98, 99, 97, 98] := by
+  decide
 
 end Exetera.Props.C14Gen
